@@ -188,6 +188,23 @@ Proof.
     { apply (ends_outer sp P M Q HndM HneM). rewrite <- Hold. symmetry. exact HM. }
     rewrite (near_end sp P Q Hfn). symmetry. exact Hpv_end.
 Qed.
+
+(* the child at f disappears but something of the node remains beyond it: that end does not move, whatever stays in
+   the child's place *)
+Lemma remove_ends_far_kept : forall M M' a,
+  get (f_name fd) sp = Some (Some a) -> endtok sp M = Some a ->
+  NoDup (ids (P ++ M ++ Q)) -> outer sp P Q <> [] ->
+  eval_chain get (scheme_chain sp (Fa ++ fd :: Near)) = endtok sp (P ++ M ++ Q) ->
+  eval_chain get' (scheme_chain sp (Fa ++ fd :: Near)) = endtok sp (P ++ M' ++ Q).
+Proof.
+  intros M M' a Hg HM HndM Hq Hold. rewrite scheme_chain_app in Hold |- *.
+  rewrite (chain_pre_ext get get' sp Fa) by (intros fd0 Hin; apply Hext_fa; exact Hin).
+  assert (HneM : M <> []) by (intro E; rewrite E in HM; apply endtok_in in HM; destruct HM).
+  destruct (chain_pre get sp Fa) as [r|] eqn:Epre.
+  - rewrite Hold. apply endtok_outer_cons. exact Hq.
+  - exfalso. rewrite (scheme_chain_opt_cons get _ _ _ Hopt) in Hold. rewrite Hg in Hold.
+    apply Hq. apply (ends_outer sp P M Q HndM HneM). rewrite <- Hold. symmetry. exact HM.
+Qed.
 End Ends.
 
 
@@ -559,6 +576,8 @@ Lemma opt_ends : forall c s T kids d dd sp Fa Near fd sl sl' m0 pv P X X' Q,
   ((sl = SOpt None /\ X = [] /\ exists y, sl' = SOpt (Some y) /\ ends_ok cs (SReq y) (node_toks y)
       /\ node_toks y <> [] /\ endtok sp X' = endtok sp (node_toks y))
    \/ (X' = [] /\ sl' = SOpt None /\ exists x, sl = SOpt (Some x) /\ ends_ok cs (SReq x) (node_toks x)
+      /\ node_toks x <> [] /\ endtok sp X = endtok sp (node_toks x))
+   \/ (outer sp P Q <> [] /\ sl' = SOpt None /\ exists x, sl = SOpt (Some x) /\ ends_ok cs (SReq x) (node_toks x)
       /\ node_toks x <> [] /\ endtok sp X = endtok sp (node_toks x))) ->
   ends_ok cs (SReq (Tree c s (P ++ X' ++ Q) (set_kid kids (f_name fd) sl') d)) (P ++ X' ++ Q).
 Proof.
@@ -569,7 +588,8 @@ Proof.
   pose proof Hswf as [(Hnd & _) _]. simpl node_toks in Hnd.
   assert (Hchild : exists z m2, (sl = SOpt (Some z) \/ sl' = SOpt (Some z))
             /\ (forall m sd, m2 <= m -> slot_border (border cs m sd) sd (SReq z) = Some (endtok sd (node_toks z)))).
-  { destruct Hmode as [(_ & _ & y & E & (m2 & H2) & _)|(_ & _ & x & E & (m2 & H2) & _)]; [exists y, m2|exists x, m2]; auto. }
+  { destruct Hmode as [(_ & _ & y & E & (m2 & H2) & _)|[(_ & _ & x & E & (m2 & H2) & _)|(_ & _ & x & E & (m2 & H2) & _)]];
+      [exists y, m2|exists x, m2|exists x, m2]; auto. }
   destruct Hchild as (z & m2 & Hz & H2).
   exists (S (m0 + m1 + m2)). intros m sd Hm. destruct m as [|m']; [lia|].
   set (kids' := set_kid kids (f_name fd) sl').
@@ -600,7 +620,7 @@ Proof.
     rewrite <- Hc_op, <- ET. apply Hold. }
   assert (Hsp : eval_chain get' (scheme_chain sp (Fa ++ fd :: Near)) = endtok sp (P ++ X' ++ Q)).
   { pose proof (Hold sp) as Ho. rewrite Hc_sp, ET in Ho.
-    destruct Hmode as [(Esl & EX & y & Esl' & _ & Hney & HX')|(EX' & Esl' & x & Esl & _ & Hnex & HX)].
+    destruct Hmode as [(Esl & EX & y & Esl' & _ & Hney & HX')|[(EX' & Esl' & x & Esl & _ & Hnex & HX)|(Hq & Esl' & x & Esl & _ & Hnex & HX)]].
     - subst sl X sl'. destruct (endtok_some sp (node_toks y) Hney) as (a & Ea).
       assert (z = y) by (destruct Hz as [E|E]; inversion E; reflexivity). subst z.
       apply (create_ends_far get get' sp Fa Near fd Hopt Hext_fa pv Hpiv' P Q Hnear_ne) with (a := a); auto.
@@ -612,7 +632,12 @@ Proof.
       apply (remove_ends_far get get' sp Fa Near fd Hopt Hext_fa Hext_near pv Hpiv' P Q Hnear_ne Hpv_end Hfar') with (M := X) (a := a); auto.
       + rewrite Hgetf. pose proof (H2 m' sp ltac:(lia)) as Hy. cbn [slot_border] in Hy |- *. rewrite Hy, Ea. reflexivity.
       + rewrite HX. exact Ea.
-      + rewrite ET in Hnd. exact Hnd. }
+      + rewrite ET in Hnd. exact Hnd.
+    - subst sl sl'. destruct (endtok_some sp (node_toks x) Hnex) as (a & Ea).
+      assert (z = x) by (destruct Hz as [E|E]; inversion E; reflexivity). subst z.
+      eapply remove_ends_far_kept with (get := get) (M := X) (a := a).
+      all: first [exact Hopt|exact Hext_fa|exact Hq|exact Ho|(rewrite HX; exact Ea)|(rewrite ET in Hnd; exact Hnd)
+                 |(rewrite Hgetf; pose proof (H2 m' sp ltac:(lia)) as Hy; cbn [slot_border] in Hy |- *; rewrite Hy, Ea; reflexivity)]. }
   cbn [slot_border]. rewrite border_tree_get, Hclass. fold kids'. fold get'.
   assert (Hres : eval_chain get' (match sd with SFirst => c_first dd | SLast => c_last dd end) = endtok sd (P ++ X' ++ Q)).
   { destruct sd, sp; simpl opp in *; rewrite ?Hc_sp, ?Hc_op; assumption. }
@@ -700,6 +725,40 @@ Proof.
     rewrite E, kids_flat_app, kids_flat_cons, Eu, (units_absent Kabs Ha). reflexivity.
 Qed.
 
+Lemma part_leaves : forall c s T kids d K Part,
+  HWF cs (Tree c s T kids d) -> (forall k sl, In (k, sl) K -> In (k, sl) kids) ->
+  woven Part (kids_flat slot_units K) -> forall t, In t (kids_flat slot_leaves K) -> In t Part.
+Proof.
+  intros c s T kids d K Part Hroot Hsub Hw t Ht. apply In_kids_flat in Ht. destruct Ht as (k & slk & Hin & Ht).
+  destruct (slot_leaves_in_units cs _ _ _ _ _ _ _ Hroot (Hsub _ _ Hin) t Ht) as (v & Hv & Htv).
+  eapply woven_units_in; [exact Hw| |exact Htv]. apply In_kids_flat. exists k, slk. auto.
+Qed.
+
+Lemma nodup_ids_out : forall A t B, NoDup (ids (A ++ t :: B)) -> ~ In t A /\ ~ In t B.
+Proof.
+  intros A t B H. unfold ids in H. rewrite map_app in H. simpl in H. apply NoDup_remove_2 in H.
+  split; intro Hin; apply H; apply in_or_app; [left|right]; apply in_map; exact Hin.
+Qed.
+
+(* a token of G in P ++ (G ++ Y) ++ Q or P ++ (Y ++ G) ++ Q occurs nowhere else *)
+Lemma nodup_part_only : forall P A B Q t, NoDup (ids (P ++ (A ++ B) ++ Q)) ->
+  (In t A -> ~ In t P /\ ~ In t B /\ ~ In t Q) /\ (In t B -> ~ In t P /\ ~ In t A /\ ~ In t Q).
+Proof.
+  intros P A B Q t H. split; intro Ht; destruct (in_split _ _ Ht) as (l1 & l2 & E); subst.
+  - replace (P ++ ((l1 ++ t :: l2) ++ B) ++ Q) with ((P ++ l1) ++ t :: (l2 ++ B ++ Q)) in H
+      by (repeat (rewrite <- app_assoc; simpl); reflexivity).
+    destruct (nodup_ids_out _ _ _ H) as [H1 H2]. repeat split; intro Hin.
+    + apply H1. apply in_or_app. left. exact Hin.
+    + apply H2. apply in_or_app. right. apply in_or_app. left. exact Hin.
+    + apply H2. apply in_or_app. right. apply in_or_app. right. exact Hin.
+  - replace (P ++ (A ++ l1 ++ t :: l2) ++ Q) with ((P ++ A ++ l1) ++ t :: (l2 ++ Q)) in H
+      by (repeat (rewrite <- app_assoc; simpl); reflexivity).
+    destruct (nodup_ids_out _ _ _ H) as [H1 H2]. repeat split; intro Hin.
+    + apply H1. apply in_or_app. left. exact Hin.
+    + apply H1. apply in_or_app. right. apply in_or_app. left. exact Hin.
+    + apply H2. apply in_or_app. right. exact Hin.
+Qed.
+
 Definition opt_mid (k : fkind) (g Y : list tk) : list tk := match k with FOptL _ => g ++ Y | _ => Y ++ g end.
 
 (* from the decomposition of the token list around the slot to the local edit *)
@@ -713,7 +772,9 @@ Lemma opt_finish : forall c s T kids d f sl sl' k pv m0 dd A fd B K1 K2 P X X' Q
   end ->
   ((sl = SOpt None /\ X = [] /\ exists y seps, sl' = SOpt (Some y) /\ item_ok cs s T seps y
        /\ N = seps ++ node_toks y /\ X' = opt_mid k seps (node_toks y))
-   \/ (X' = [] /\ sl' = SOpt None /\ N = [] /\ exists x g, sl = SOpt (Some x) /\ X = opt_mid k g (node_toks x))) ->
+   \/ (X' = [] /\ sl' = SOpt None /\ N = [] /\ exists x g, sl = SOpt (Some x) /\ X = opt_mid k g (node_toks x))
+   \/ (sl' = SOpt None /\ N = [] /\ exists x g, sl = SOpt (Some x) /\ X = opt_mid k g (node_toks x) /\ X' = g
+        /\ match k with FOptL _ => Q <> [] | _ => P <> [] end)) ->
   local_edit cs (Tree c s T kids d) (Tree c s (P ++ X' ++ Q) (set_kid kids f sl') d) P X X' Q N.
 Proof.
   intros c s T kids d f sl sl' k pv m0 dd A fd B K1 K2 P X X' Q N Hroot Hsite ET HwP HwQ Hpos Hmode.
@@ -741,7 +802,7 @@ Proof.
            /\ (forall u, In u (slot_subunits subunits sl') ->
                  unit_ok cs s u /\ woven (unit_toks u) (unit_children u) /\ exempt u = false /\ (forall n, u = UNode n -> SWF cs n))
            /\ (forall t t', In t N -> In t' T -> k_id t <> k_id t')).
-  { destruct Hmode as [(Esl & EX & y & seps & Esl' & [Hy Hglue Hndy Hfr] & EN & EX')|(EX' & Esl' & EN & x & g & Esl & EX)].
+  { destruct Hmode as [(Esl & EX & y & seps & Esl' & [Hy Hglue Hndy Hfr] & EN & EX')|[(EX' & Esl' & EN & x & g & Esl & EX)|(Esl' & EN & x & g & Esl & EX & EX' & Hfar)]].
     - subst sl X sl' N. pose proof (HWF_SWF _ _ (proj1 Hy)) as [(Y1 & Y2 & Y3 & Y4 & Y5) Yw].
       assert (HX' : forall t, In t X' <-> In t (seps ++ node_toks y)).
       { intro t. subst X'. unfold opt_mid. destruct k; rewrite !in_app_iff; tauto. }
@@ -762,6 +823,31 @@ Proof.
         exists g, []. rewrite app_nil_r. split; [reflexivity|exact I]. }
       split; [exact I|]. split; [constructor|]. split; [constructor|].
       split; [intros t []|]. split; [intros t []|]. split; [intros t []|]. split; [intros t []|].
+      split; [intros u []|]. intros t t' [].
+    - (* the separators stay in the place of the child *)
+      subst sl' N sl X'. simpl slot_units. simpl slot_leaves. simpl slot_subunits.
+      assert (Hxok : sub_ok cs s x) by (eapply kid_sub_ok; [exact Hroot|exact Hk|reflexivity]).
+      assert (HgX : forall t, In t g -> In t X) by (intros t Ht; subst X; unfold opt_mid; destruct k; apply in_or_app; auto).
+      assert (W1' : NoDup (ids (P ++ X ++ Q))) by (rewrite <- ET; exact W1).
+      assert (Hgonly : forall t, In t g -> ~ In t P /\ ~ In t (node_toks x) /\ ~ In t Q).
+      { intros t Ht. subst X. unfold opt_mid in W1'. destruct k;
+          try (exact (proj2 (nodup_part_only P (node_toks x) g Q t W1') Ht)).
+        exact (proj1 (nodup_part_only P g (node_toks x) Q t W1') Ht). }
+      split.
+      { subst X. unfold opt_mid. destruct k; try (exists [], g; split; [reflexivity|exact I]).
+        exists g, []. rewrite app_nil_r. split; [reflexivity|exact I]. }
+      split; [exact I|]. split.
+      { apply NoDup_ids_app_r in W1'. apply NoDup_ids_app_l in W1'. subst X. unfold opt_mid in W1'.
+        destruct k; try (apply NoDup_ids_app_r in W1'; exact W1'). apply NoDup_ids_app_l in W1'. exact W1'. }
+      split; [constructor|]. split; [intros t []|]. split.
+      { intros t Ht Hs. exfalso. destruct (Hgonly t Ht) as (HnP & HnY & HnQ).
+        assert (HtT : In t T) by (rewrite ET; apply in_or_app; right; apply in_or_app; left; apply HgX; exact Ht).
+        pose proof (W5 t HtT Hs) as HL. rewrite leaves_tree, EK, kids_flat_app, kids_flat_cons in HL.
+        apply in_app_or in HL. destruct HL as [HL|HL]; [|apply in_app_or in HL; destruct HL as [HL|HL]].
+        - apply HnP. exact (part_leaves c s T kids d K1 P Hroot Hsub1 HwP t HL).
+        - apply HnY. simpl slot_leaves in HL. exact (sub_ok_leaves cs s x Hxok t HL).
+        - apply HnQ. exact (part_leaves c s T kids d K2 Q Hroot Hsub2 HwQ t HL). }
+      split; [intros t Ht; left; apply HgX; exact Ht|]. split; [intros t []|].
       split; [intros u []|]. intros t t' []. }
   destruct Hslots as (HwX & HwX' & Y1 & Y3 & Y4 & Y5 & Itin & Ilin & Ysub & Hfresh).
   assert (HneT' : P ++ X' ++ Q <> []).
@@ -775,13 +861,21 @@ Proof.
       (sl = SOpt None /\ X = [] /\ exists y, sl' = SOpt (Some y) /\ ends_ok cs (SReq y) (node_toks y)
          /\ node_toks y <> [] /\ endtok sp X' = endtok sp (node_toks y))
       \/ (X' = [] /\ sl' = SOpt None /\ exists x, sl = SOpt (Some x) /\ ends_ok cs (SReq x) (node_toks x)
+         /\ node_toks x <> [] /\ endtok sp X = endtok sp (node_toks x))
+      \/ (outer sp P Q <> [] /\ sl' = SOpt None /\ exists x, sl = SOpt (Some x) /\ ends_ok cs (SReq x) (node_toks x)
          /\ node_toks x <> [] /\ endtok sp X = endtok sp (node_toks x))).
-    { intros sp Esp. destruct Hmode as [(Esl & EX & y & seps & Esl' & Hio & EN & EX')|(EX' & Esl' & EN & x & g & Esl & EX)].
+    { intros sp Esp. destruct Hmode as [(Esl & EX & y & seps & Esl' & Hio & EN & EX')|[(EX' & Esl' & EN & x & g & Esl & EX)|(Esl' & EN & x & g & Esl & EX & EX' & Hfar)]].
       - left. split; [exact Esl|]. split; [exact EX|]. exists y. split; [exact Esl'|].
         destruct (sub_ok_toks_ne cs s y (io_sub _ _ _ _ _ Hio)) as [Hney Hendy]. split; [exact Hendy|]. split; [exact Hney|].
         subst X' sp. unfold opt_mid. destruct k; simpl endtok; try (destruct (node_toks y); [contradiction|reflexivity]).
         apply hd_rev_app. exact Hney.
-      - right. split; [exact EX'|]. split; [exact Esl'|]. exists x. split; [exact Esl|].
+      - right. left. split; [exact EX'|]. split; [exact Esl'|]. exists x. split; [exact Esl|].
+        assert (Hxok : sub_ok cs s x) by (eapply kid_sub_ok; [exact Hroot|exact Hk|subst sl; reflexivity]).
+        destruct (sub_ok_toks_ne cs s x Hxok) as [Hnex Hendx]. split; [exact Hendx|]. split; [exact Hnex|].
+        subst X sp. unfold opt_mid. destruct k; simpl endtok; try (destruct (node_toks x); [contradiction|reflexivity]).
+        apply hd_rev_app. exact Hnex.
+      - right. right. split; [subst sp; destruct k; simpl outer; try contradiction; exact Hfar|].
+        split; [exact Esl'|]. exists x. split; [exact Esl|].
         assert (Hxok : sub_ok cs s x) by (eapply kid_sub_ok; [exact Hroot|exact Hk|subst sl; reflexivity]).
         destruct (sub_ok_toks_ne cs s x Hxok) as [Hnex Hendx]. split; [exact Hendx|]. split; [exact Hnex|].
         subst X sp. unfold opt_mid. destruct k; simpl endtok; try (destruct (node_toks x); [contradiction|reflexivity]).
@@ -876,70 +970,173 @@ Proof.
     + left. split; [reflexivity|]. split; [reflexivity|]. exists y, seps. auto.
 Qed.
 
-Lemma remove_at_ok : forall c s T kids d f x new,
-  HWF cs (Tree c s T kids d) ->
-  remove_opt_at cs (Tree c s T kids d) f = Some (x, new) ->
-  sub_ok cs s x /\ exists pre g post Mold, (Mold = g ++ node_toks x \/ Mold = node_toks x ++ g)
-    /\ local_edit cs (Tree c s T kids d) new pre Mold [] post [].
+Lemma local_edit_reassoc : forall old new pre Mold Mnew post N pre' Mold' Mnew' post',
+  local_edit cs old new pre Mold Mnew post N ->
+  pre ++ Mold ++ post = pre' ++ Mold' ++ post' -> pre ++ Mnew ++ post = pre' ++ Mnew' ++ post' ->
+  local_edit cs old new pre' Mold' Mnew' post' N.
 Proof.
-  intros c s T kids d f x new Hroot H. unfold remove_opt_at in H.
+  intros old new pre Mold Mnew post N pre' Mold' Mnew' post' [H1 [H2 H3] H4 H5] E1 E2.
+  constructor; auto. split; [rewrite H2; exact E1|rewrite H3; exact E2].
+Qed.
+
+Lemma ltb_app_tail : forall {A} (L R : list A), Nat.ltb (length L) (length (L ++ R)) = true -> R <> [].
+Proof. intros A L R H E. subst R. rewrite app_nil_r in H. apply Nat.ltb_lt in H. lia. Qed.
+
+Lemma slice_mid : forall {A} (P G R : list A), slice (P ++ G ++ R) (length P) (length (P ++ G)) = G.
+Proof.
+  intros A P G R. unfold slice. rewrite skipn_app_len, app_length.
+  replace (length P + length G - length P) with (length G) by lia. apply firstn_app_len.
+Qed.
+
+(* tokens between the parts of a node's token list that hold its units are insignificant *)
+Lemma gap_insignificant : forall c s T kids d P G Q us1 us2,
+  HWF cs (Tree c s T kids d) -> T = P ++ G ++ Q -> kids_units kids = us1 ++ us2 -> woven P us1 -> woven Q us2 ->
+  forall t, In t G -> significant t = false.
+Proof.
+  intros c s T kids d P G Q us1 us2 Hroot ET EU HwP HwQ t Ht. destruct (significant t) eqn:Hs; [exfalso|reflexivity].
+  pose proof (HWF_SWF _ _ Hroot) as [(W1 & _ & _ & _ & W5) _]. simpl node_toks in *.
+  assert (HtT : In t T) by (rewrite ET; apply in_or_app; right; apply in_or_app; left; exact Ht).
+  pose proof (W5 t HtT Hs) as HL. rewrite leaves_tree in HL. apply In_kids_flat in HL. destruct HL as (k0 & sl0 & Hin & HtL).
+  destruct (slot_leaves_in_units cs _ _ _ _ _ _ _ Hroot Hin t HtL) as (v & Hv & Htv).
+  assert (Hvu : In v (kids_units kids)) by (unfold kids_units; apply In_kids_flat; exists k0, sl0; auto).
+  rewrite EU in Hvu. rewrite ET in W1.
+  replace (P ++ G ++ Q) with (P ++ (G ++ []) ++ Q) in W1 by (rewrite app_nil_r; reflexivity).
+  destruct (proj1 (nodup_part_only P G [] Q t W1) Ht) as (HnP & _ & HnQ).
+  apply in_app_or in Hvu. destruct Hvu as [Hvu|Hvu].
+  - apply HnP. exact (woven_units_in _ _ HwP v t Hvu Htv).
+  - apply HnQ. exact (woven_units_in _ _ HwQ v t Hvu Htv).
+Qed.
+
+(* what remove_opt_at reports as staying outside the node: nothing, or the tokens g between pivot and child, which are
+   insignificant and lay right after (before) the pivot that ends `pre` (begins `post`) *)
+Definition kept_out (k : fkind) (pv : tk) (pre g post Mold X out : list tk) : Prop :=
+  out = [] \/ (out = g /\ (forall t, In t g -> significant t = false)
+               /\ match k with
+                  | FOptL _ => Mold = g ++ X /\ endtok SLast pre = Some pv
+                  | _ => Mold = X ++ g /\ endtok SFirst post = Some pv
+                  end).
+
+(* whatever _touches answered (keep): the node loses the child and, unless they stay inside the node, the tokens between
+   the pivot and the child; what stays outside the node (third component) is dealt with above it (regap) *)
+Lemma remove_at_ok : forall keep c s T kids d f x new out,
+  HWF cs (Tree c s T kids d) ->
+  remove_opt_at cs keep (Tree c s T kids d) f = Some (x, new, out) ->
+  sub_ok cs s x /\ exists pre g post Mold, (Mold = g ++ node_toks x \/ Mold = node_toks x ++ g)
+    /\ local_edit cs (Tree c s T kids d) new pre Mold [] post []
+    /\ exists k pv, opt_pivot cs (Tree c s T kids d) f = Some (k, pv) /\ is_opt k = true
+         /\ kept_out k pv pre g post Mold (node_toks x) out.
+Proof.
+  intros keep c s T kids d f x new out Hroot H. unfold remove_opt_at in H.
   destruct (kid kids f) as [[?|[x0|]|? ? ? ?|?]|] eqn:Ek; try discriminate.
   destruct (opt_pivot cs (Tree c s T kids d) f) as [[k pv]|] eqn:Ep; try discriminate.
+  destruct (border cs (depth (Tree c s T kids d)) SFirst x0) as [ft|] eqn:Ebf; try discriminate.
+  destruct (border cs (depth (Tree c s T kids d)) SLast x0) as [lt|] eqn:Ebl; try discriminate.
+  destruct (find_off pv T) as [a|] eqn:Ea; try discriminate.
+  destruct (find_off ft T) as [xa|] eqn:Exa; try discriminate.
+  destruct (find_off lt T) as [xb|] eqn:Exb; try discriminate.
   assert (Hk : is_opt k = true) by (destruct k; try discriminate; reflexivity).
   destruct (opt_site_of cs Hpivs c s T kids d f _ k pv Ek Ep Hk) as (dd & A & fd & B & K1 & K2 & Hsite).
   destruct (site_woven _ _ _ _ _ _ _ _ _ _ _ _ _ _ _ _ Hroot Hsite) as (W1 & HwT & Hsub1 & Hsub2).
   pose proof Hsite as [Hclass EF EK Eset Hndk E1 E2 Ename Ekind Hchain]. simpl slot_units in HwT.
   assert (Hxok : sub_ok cs s x0) by (eapply kid_sub_ok; [exact Hroot|exact Ek|reflexivity]).
   pose proof (HWF_SWF _ _ (proj1 Hxok)) as Hxs. pose proof (proj1 (proj2 Hxok)) as Hxe.
+  pose proof (border_end cs x0 _ SFirst ft Hxs Hxe Ebf) as Hft.
+  pose proof (border_end cs x0 _ SLast lt Hxs Hxe Ebl) as Hlt.
   destruct k as [|sepsd|sepsd|? ?]; try discriminate.
-  - destruct (find_off pv T) as [a|] eqn:Ea; try discriminate.
-    destruct (border cs (depth (Tree c s T kids d)) SLast x0) as [lt|] eqn:Eb; try discriminate.
-    destruct (find_off lt T) as [b|] eqn:Efb; try discriminate. inversion H. subst x0 new. clear H.
-    split; [exact Hxok|].
+  - (* left field: (Ta ++ ul) ends with the pivot, then g, the child, T3 *)
     destruct (left_pivot_unit cs c s T kids d K1 A _ pv Hroot Hndk Hsub1 E1 Hchain) as (us0 & ul & Eu & He).
+    assert (EU : kids_units kids = (us0 ++ [ul]) ++ [node_toks x0] ++ kids_flat slot_units K2).
+    { unfold kids_units. rewrite EK, kids_flat_app, kids_flat_cons, Eu. reflexivity. }
     rewrite Eu in HwT. destruct (woven_split_tight us0 ul _ T HwT) as (Ta & T2 & ET & Hw1 & Hw2).
     simpl app in Hw2. destruct Hw2 as (g & T3 & ET2 & Hw3). subst T2.
     assert (Hul : ul <> []) by (intro E; subst ul; discriminate).
     assert (Epos : S a = length (Ta ++ ul)) by (rewrite ET in Ea, W1; exact (pos_after Ta ul _ pv a He W1 Ea)).
-    pose proof (border_end cs x _ SLast lt Hxs Hxe Eb) as Hlt.
-    assert (ET' : T = (((Ta ++ ul) ++ g) ++ node_toks x) ++ T3) by (rewrite ET, <- !app_assoc; reflexivity).
-    assert (Eposb : S b = length ((Ta ++ ul) ++ g ++ node_toks x)).
-    { rewrite ET' in Efb, W1. rewrite (pos_after _ _ T3 lt b Hlt W1 Efb), <- !app_assoc. reflexivity. }
-    assert (Ecut : cut T (S a) (S b) = (Ta ++ ul) ++ [] ++ T3).
-    { rewrite Epos, Eposb. rewrite ET. simpl. rewrite (app_assoc g). apply (cut_at (Ta ++ ul) (g ++ node_toks x) T3). }
-    rewrite Ecut. exists (Ta ++ ul), g, T3, (g ++ node_toks x). split; [left; reflexivity|].
-    apply (opt_finish cs Hok c s T kids d f (SOpt (Some x)) (SOpt None) (FOptL sepsd) pv _ dd A fd B K1 K2
-             (Ta ++ ul) (g ++ node_toks x) [] T3 [] Hroot Hsite); auto.
-    + rewrite ET, <- !app_assoc. reflexivity.
-    + rewrite Eu. exact Hw1.
-    + split; [intro E; apply app_eq_nil in E; destruct E; auto|]. simpl. rewrite hd_rev_app by exact Hul. exact He.
-    + right. split; [reflexivity|]. split; [reflexivity|]. split; [reflexivity|]. exists x, g. auto.
-  - destruct (border cs (depth (Tree c s T kids d)) SFirst x0) as [ft|] eqn:Eb; try discriminate.
-    destruct (find_off pv T) as [b|] eqn:Efb; try discriminate.
-    destruct (find_off ft T) as [a|] eqn:Ea; try discriminate. inversion H. subst x0 new. clear H.
-    split; [exact Hxok|].
+    assert (Hgins : forall t, In t g -> significant t = false).
+    { apply (gap_insignificant c s T kids d (Ta ++ ul) g (node_toks x0 ++ T3) _ _ Hroot ET EU Hw1).
+      exists [], T3. split; [reflexivity|exact Hw3]. }
+    assert (ET' : T = (((Ta ++ ul) ++ g) ++ node_toks x0) ++ T3) by (rewrite ET, <- !app_assoc; reflexivity).
+    assert (ETa : T = ((Ta ++ ul) ++ g) ++ node_toks x0 ++ T3) by (rewrite ET, <- !app_assoc; reflexivity).
+    assert (Eposb : S xb = length ((Ta ++ ul) ++ g ++ node_toks x0)).
+    { rewrite ET' in Exb, W1. rewrite (pos_after _ _ T3 lt xb Hlt W1 Exb), <- !app_assoc. reflexivity. }
+    assert (Eposa : xa = length ((Ta ++ ul) ++ g)) by (rewrite ETa in Exa, W1; exact (pos_at _ _ _ ft xa Hft W1 Exa)).
+    assert (HwP : woven (Ta ++ ul) (kids_flat slot_units K1)) by (rewrite Eu; exact Hw1).
+    assert (HposL : Ta ++ ul <> [] /\ endtok SLast (Ta ++ ul) = Some pv).
+    { split; [intro E; apply app_eq_nil in E; destruct E; auto|]. simpl. rewrite hd_rev_app by exact Hul. exact He. }
+    assert (ETm : T = (Ta ++ ul) ++ (g ++ node_toks x0) ++ T3) by (rewrite ET, <- !app_assoc; reflexivity).
+    destruct (keep && Nat.ltb (S xb) (length T)) eqn:Ekeep.
+    + (* the separators stay, and the node goes on beyond the child *)
+      inversion H. subst x0 new out. clear H. split; [exact Hxok|].
+      apply andb_true_iff in Ekeep. destruct Ekeep as [_ Hlt3].
+      assert (HT3 : T3 <> []).
+      { intro E3. rewrite Eposb, ET, E3, !app_nil_r in Hlt3. apply Nat.ltb_lt in Hlt3. lia. }
+      assert (Ecut : cut T xa (S xb) = (Ta ++ ul) ++ g ++ T3).
+      { rewrite Eposa, Eposb, ETa. rewrite (app_assoc (Ta ++ ul) g (node_toks x)).
+        rewrite (cut_at ((Ta ++ ul) ++ g) (node_toks x) T3). rewrite <- app_assoc. reflexivity. }
+      rewrite Ecut. exists ((Ta ++ ul) ++ g), [], T3, (node_toks x). split; [left; reflexivity|].
+      split; [|exists (FOptL sepsd), pv; split; [reflexivity|split; [reflexivity|left; reflexivity]]].
+      apply (local_edit_reassoc _ _ (Ta ++ ul) (g ++ node_toks x) g T3 []);
+        [|rewrite <- !app_assoc; reflexivity|rewrite <- !app_assoc; reflexivity].
+      apply (opt_finish cs Hok c s T kids d f (SOpt (Some x)) (SOpt None) (FOptL sepsd) pv _ dd A fd B K1 K2
+               (Ta ++ ul) (g ++ node_toks x) g T3 [] Hroot Hsite); auto.
+      right. right. split; [reflexivity|]. split; [reflexivity|]. exists x, g. auto.
+    + inversion H. subst x0 new. clear H. split; [exact Hxok|].
+      assert (Ecut : cut T (S a) (S xb) = (Ta ++ ul) ++ [] ++ T3).
+      { rewrite Epos, Eposb. rewrite ET. simpl. rewrite (app_assoc g). apply (cut_at (Ta ++ ul) (g ++ node_toks x) T3). }
+      rewrite Ecut. exists (Ta ++ ul), g, T3, (g ++ node_toks x). split; [left; reflexivity|].
+      split; [|exists (FOptL sepsd), pv; split; [reflexivity|split; [reflexivity|]]].
+      2:{ destruct keep; [right|left; reflexivity]. split; [|split; [exact Hgins|split; [reflexivity|exact (proj2 HposL)]]].
+          rewrite Epos, Eposa, ET. apply (slice_mid (Ta ++ ul) g (node_toks x ++ T3)). }
+      apply (opt_finish cs Hok c s T kids d f (SOpt (Some x)) (SOpt None) (FOptL sepsd) pv _ dd A fd B K1 K2
+               (Ta ++ ul) (g ++ node_toks x) [] T3 [] Hroot Hsite); auto.
+      right. left. split; [reflexivity|]. split; [reflexivity|]. split; [reflexivity|]. exists x, g. auto.
+  - (* right field: P, the child, g = T1c ++ g0, then Q = ul ++ T3 beginning with the pivot *)
     destruct (right_pivot_unit cs c s T kids d K2 B _ pv Hroot Hndk Hsub2 E2 Hchain) as (ul & us1 & Eu & He).
     rewrite Eu, app_assoc in HwT. destruct (woven_app_inv _ _ T HwT) as (T1 & T2 & ET & Hw1 & Hw2).
     destruct Hw2 as (g0 & T3 & ET2 & Hw3). subst T2.
     destruct (woven_app_inv _ _ T1 Hw1) as (T1a & T1b & ET1 & Hw1a & Hw1b).
     destruct Hw1b as (g1 & T1c & ET1b & _). subst T1b T1.
-    pose proof (border_end cs x _ SFirst ft Hxs Hxe Eb) as Hft.
-    set (P := T1a ++ g1). set (X := node_toks x ++ (T1c ++ g0)). set (Q := ul ++ T3).
-    assert (ETa : T = P ++ node_toks x ++ ((T1c ++ g0) ++ Q)) by (unfold P, Q; rewrite ET, <- !app_assoc; reflexivity).
-    assert (ETb : T = (P ++ X) ++ ul ++ T3) by (unfold P, X; rewrite ET, <- !app_assoc; reflexivity).
+    set (P := T1a ++ g1). set (G := T1c ++ g0). set (X := node_toks x0 ++ G). set (Q := ul ++ T3).
+    assert (ETa : T = P ++ node_toks x0 ++ (G ++ Q)) by (unfold P, G, Q; rewrite ET, <- !app_assoc; reflexivity).
+    assert (ETb : T = (P ++ X) ++ ul ++ T3) by (unfold P, X, G; rewrite ET, <- !app_assoc; reflexivity).
     assert (ETc : T = P ++ X ++ Q) by (unfold Q; rewrite ETb, <- !app_assoc; reflexivity).
-    assert (Eposa : a = length P) by (rewrite ETa in Ea, W1; exact (pos_at P _ _ ft a Hft W1 Ea)).
-    assert (Eposb : b = length (P ++ X)) by (rewrite ETb in Efb, W1; exact (pos_at _ ul T3 pv b He W1 Efb)).
-    assert (Ecut : cut T a b = P ++ [] ++ Q).
-    { rewrite Eposa, Eposb, ETc. simpl. apply (cut_at P X Q). }
-    rewrite Ecut. exists P, (T1c ++ g0), Q, X. split; [right; reflexivity|].
-    apply (opt_finish cs Hok c s T kids d f (SOpt (Some x)) (SOpt None) (FOptR sepsd) pv _ dd A fd B K1 K2
-             P X [] Q [] Hroot Hsite); auto.
-    + unfold P. apply woven_glue. exact Hw1a.
-    + rewrite Eu. unfold Q. exists [], T3. auto.
-    + assert (Hul : ul <> []) by (intro E; subst ul; discriminate).
-      unfold Q. split; [intro E; apply app_eq_nil in E; destruct E; auto|]. destruct ul; [contradiction|exact He].
-    + right. split; [reflexivity|]. split; [reflexivity|]. split; [reflexivity|]. exists x, (T1c ++ g0). auto.
+    assert (ETd : T = (P ++ node_toks x0) ++ G ++ Q) by (rewrite ETa, <- !app_assoc; reflexivity).
+    assert (Eposxa : xa = length P) by (rewrite ETa in Exa, W1; exact (pos_at P _ _ ft xa Hft W1 Exa)).
+    assert (Eposa : a = length (P ++ X)) by (rewrite ETb in Ea, W1; exact (pos_at _ ul T3 pv a He W1 Ea)).
+    assert (Eposxb : S xb = length (P ++ node_toks x0)) by (rewrite ETd in Exb, W1; exact (pos_after P _ _ lt xb Hlt W1 Exb)).
+    assert (HwP : woven P (kids_flat slot_units K1)) by (unfold P; apply woven_glue; exact Hw1a).
+    assert (HwQ : woven Q (kids_flat slot_units K2)) by (rewrite Eu; unfold Q; exists [], T3; auto).
+    assert (Hul : ul <> []) by (intro E; subst ul; discriminate).
+    assert (HposR : Q <> [] /\ endtok SFirst Q = Some pv).
+    { unfold Q. split; [intro E; apply app_eq_nil in E; destruct E; auto|]. destruct ul; [contradiction|exact He]. }
+    assert (EU : kids_units kids = (kids_flat slot_units K1 ++ [node_toks x0]) ++ kids_flat slot_units K2).
+    { unfold kids_units. rewrite EK, kids_flat_app, kids_flat_cons, <- app_assoc. reflexivity. }
+    assert (Hgins : forall t, In t G -> significant t = false).
+    { apply (gap_insignificant c s T kids d (P ++ node_toks x0) G Q _ _ Hroot ETd EU); [|exact HwQ].
+      unfold P. rewrite <- app_assoc. apply woven_app; [exact Hw1a|]. exists g1, []. rewrite app_nil_r. split; [reflexivity|exact I]. }
+    destruct (keep && Nat.ltb 0 xa) eqn:Ekeep.
+    + inversion H. subst x0 new out. clear H. split; [exact Hxok|].
+      apply andb_true_iff in Ekeep. destruct Ekeep as [_ Hlt0].
+      assert (HP : P <> []) by (intro E; rewrite E in Eposxa; subst xa; discriminate).
+      assert (Ecut : cut T xa (S xb) = P ++ G ++ Q).
+      { rewrite Eposxa, Eposxb, ETa. apply (cut_at P (node_toks x) (G ++ Q)). }
+      rewrite Ecut. exists P, [], (G ++ Q), (node_toks x). split; [left; reflexivity|].
+      split; [|exists (FOptR sepsd), pv; split; [reflexivity|split; [reflexivity|left; reflexivity]]].
+      apply (local_edit_reassoc _ _ P X G Q []);
+        [|unfold X; rewrite <- ?app_assoc; reflexivity|rewrite <- ?app_assoc; reflexivity].
+      apply (opt_finish cs Hok c s T kids d f (SOpt (Some x)) (SOpt None) (FOptR sepsd) pv _ dd A fd B K1 K2
+               P X G Q [] Hroot Hsite); auto.
+      right. right. split; [reflexivity|]. split; [reflexivity|]. exists x, G. auto.
+    + inversion H. subst x0 new. clear H. split; [exact Hxok|].
+      assert (Ecut : cut T xa a = P ++ [] ++ Q).
+      { rewrite Eposxa, Eposa, ETc. simpl. apply (cut_at P X Q). }
+      rewrite Ecut. exists P, G, Q, X. split; [right; reflexivity|].
+      split; [|exists (FOptR sepsd), pv; split; [reflexivity|split; [reflexivity|]]].
+      2:{ destruct keep; [right|left; reflexivity]. split; [|split; [exact Hgins|split; [reflexivity|exact (proj2 HposR)]]].
+          rewrite Eposxb, Eposa, ETd. replace (P ++ X) with ((P ++ node_toks x) ++ G) by (unfold X; rewrite <- app_assoc; reflexivity).
+          apply (slice_mid (P ++ node_toks x) G Q). }
+      apply (opt_finish cs Hok c s T kids d f (SOpt (Some x)) (SOpt None) (FOptR sepsd) pv _ dd A fd B K1 K2
+               P X [] Q [] Hroot Hsite); auto.
+      right. left. split; [reflexivity|]. split; [reflexivity|]. split; [reflexivity|]. exists x, G. auto.
 Qed.
 
 (* ---- anywhere in the tree ---------------------------------------------------------------------------------- *)
@@ -970,23 +1167,32 @@ Proof.
   - split; [exact A|]. split; [exact B|]. split; [|exact D]. exists pr, po, Mnew. auto.
 Qed.
 
-Theorem remove_opt_ok : forall root p f x root',
-  HWF cs root -> remove_opt cs root p f = Some (x, root') ->
+(* The case without regap, kept as a stepping stone (the full theorem is TreeEditProofs6.remove_opt_ok).
+   PARTIAL: proved when the separators do not stay outside the owner of the field (opt_out = []: either _touches
+   answered no, or the owner goes on beyond the child so that the separators stay inside it - the `Cash 10CAD` shape).
+   Missing: when the child was the last (left field) / first (right field) thing of its owner and touches a token
+   beyond the owner, the separators stay in the ancestors only (TreeEdit.regap, compared with the implementation on
+   every run by TreeRun.check_ocase); that regap preserves HWF (a gap insertion next to the unit that ends with the
+   pivot, in a node and possibly in the Repeated holding the path's item) is not proved.
+   Mold is g ++ X / X ++ g when the separators g leave with the child X, and [] ++ X when they stay. *)
+Theorem remove_opt_ok_partial : forall root p f x root',
+  HWF cs root -> remove_opt cs root p f = Some (x, root') -> opt_out cs root p f = [] ->
   HWF cs root' /\ WF cs root' /\ HWF cs x /\ exempt (UNode x) = false
   /\ (exists pre g post Mold, (Mold = g ++ node_toks x \/ Mold = node_toks x ++ g)
         /\ node_toks root = pre ++ Mold ++ post /\ node_toks root' = pre ++ [] ++ post)
   /\ (forall t, In t (leaves root') -> In t (leaves root)).
 Proof.
-  intros root p f x root' Hroot H. unfold remove_opt in H.
+  intros root p f x root' Hroot H Hout. unfold remove_opt in H. unfold opt_out in Hout.
   destruct (select root p) as [old|] eqn:Hsel; try discriminate.
-  destruct (remove_opt_at cs old f) as [[x0 new]|] eqn:Hrem; try discriminate.
+  destruct (remove_opt_at cs (opt_touches cs root old f) old f) as [[[x0 new] out]|] eqn:Hrem; try discriminate.
+  subst out.
   destruct (plug root p new) as [r'|] eqn:Hplug; try discriminate. inversion H. subst x0 r'. clear H.
   destruct old as [t0|c s T k d]; [discriminate|].
   assert (Hold : HWF cs (Tree c s T k d)).
   { destruct p as [|st r].
     - simpl in Hsel. inversion Hsel. subst root. auto.
     - exact (proj1 (proj1 (select_sub_ok cs _ root _ Hroot Hsel ltac:(discriminate)))). }
-  destruct (remove_at_ok c s T k d f x new Hold Hrem) as (Hx & pre & g & post & Mold & HM & Hle).
+  destruct (remove_at_ok _ c s T k d f x new [] Hold Hrem) as (Hx & pre & g & post & Mold & HM & Hle & _).
   destruct (lift_local cs Hok p root _ new root' pre Mold [] post [] Hroot Hsel Hplug Hle) as (A & B & (pr & po & C1 & C2) & D).
   - intros t [].
   - intros t t' [].
@@ -995,34 +1201,4 @@ Proof.
     + intros t Ht. destruct (D t Ht) as [H0|[]]. exact H0.
 Qed.
 
-(* ---- histories over all slot kinds ---------------------------------------------------------------------------- *)
-Inductive edit2 : node -> node -> Prop :=
-| edit2_old : forall a b, edit cs a b -> edit2 a b       (* replace a sub-tree / insert an item / remove an item *)
-| edit2_create : forall root p f seps y root',           (* optional_node_property.__set__: None -> a node *)
-    donor cs y -> glue_ok seps -> NoDup (ids (seps ++ node_toks y)) -> fresh_for (seps ++ node_toks y) root ->
-    create_opt cs root p f seps (reattach cs (root_sid root) y) = Some root' -> edit2 root root'
-| edit2_remove : forall root p f x root',                (* optional_node_property.__set__: a node -> None *)
-    remove_opt cs root p f = Some (x, root') -> edit2 root root'.
-
-Inductive edits2 : node -> node -> Prop :=
-| edits2_nil : forall root, edits2 root root
-| edits2_cons : forall a b c, edit2 a b -> edits2 b c -> edits2 a c.
-
-Theorem edit2_HWF : forall a b, HWF cs a -> edit2 a b -> HWF cs b.
-Proof.
-  intros a b Ha He. destruct He as [a b He|root p f seps y root' Hy Hg Hnd Hfr Hins|root p f x root' Hrem].
-  - exact (edit_HWF cs Hok a b Ha He).
-  - destruct (create_opt_ok root p f seps _ root' Ha Hins (donor_sub_ok cs Hok _ y Hy) Hg) as (A & _).
-    + rewrite reattach_toks. exact Hnd.
-    + intros t t' Ht Ht'. rewrite reattach_toks in Ht. apply Hfr; assumption.
-    + exact A.
-  - exact (proj1 (remove_opt_ok root p f x root' Ha Hrem)).
-Qed.
-
-Theorem history2_HWF : forall a b, HWF cs a -> edits2 a b -> HWF cs b /\ WF cs b.
-Proof.
-  intros a b Ha He. induction He as [root|a b c Hab Hbc IH].
-  - split; [exact Ha|apply HWF_WF; exact Ha].
-  - apply IH. eapply edit2_HWF; eauto.
-Qed.
 End OptAt.
